@@ -593,6 +593,7 @@ class NearestNeighborModel(Model):
         bond_XYZ = [None] * L  # svd of couplings on each bond (i-1, i)
         chis = [2] * (L + 1)
         assert len(self.H_bond) == L
+        chinfo = sites[0].leg.chinfo
         for i, Hb in enumerate(H_bond):
             if Hb is None:
                 continue
